@@ -1288,14 +1288,24 @@ def rule_cast(rep, d, cls):
                             n_ = ir.strip(n_)
                             if n_.get("kind") == "ConditionalOperator":
                                 kk = ir.ekids(n_)
-                                tc = uncast_(ir.sx(kk[0]))
-                                neg_ = False
-                                while tc[0] == "un" and tc[1] == "!":
-                                    tc, neg_ = uncast_(tc[2]), not neg_
-                                v_ = conds.get(tc, (None,))[0]
+                                def cval(tc):
+                                    """truth of a condition on this path from its atomic conditions (short-circuit: an operand that was not reached is not needed)"""
+                                    tc = uncast_(tc)
+                                    if tc[0] == "un" and tc[1] == "!":
+                                        v2 = cval(tc[2])
+                                        return None if v2 is None else (not v2)
+                                    if tc[0] == "bin" and tc[1] in ("&&", "||"):
+                                        va = cval(tc[2])
+                                        if va is None:
+                                            return None
+                                        if (tc[1] == "&&" and not va) or (tc[1] == "||" and va):
+                                            return va
+                                        return cval(tc[3])
+                                    return conds.get(tc, (None,))[0]
+                                v_ = cval(ir.sx(kk[0]))
                                 if v_ is None:
                                     return None
-                                return chosen(kk[1] if (v_ != neg_) else kk[2])
+                                return chosen(kk[1] if v_ else kk[2])
                             return n_
                         rv_ = chosen(ir.ekids(ret[1])[0]) if ir.ekids(ret[1]) else None
                         if rv_ is None or uncast_(ir.sx(rv_)) != NULLP:
